@@ -132,6 +132,10 @@ type ACfg struct {
 	Paths   int      `json:"paths"`
 	SSlots  int      `json:"sslots"`
 	Variant string   `json:"variant"` // plain | ent
+	// Sparse: no description of the state is logged inside the transaction (the logging itself reads
+	// every attachment through references after every step, which can mask stale `base` bindings);
+	// only per-operation results are logged and the committed state is read back by the fresh script.
+	Sparse bool `json:"sparse"`
 }
 
 type ABeh struct {
@@ -313,7 +317,7 @@ func renderAtt(cfg ACfg, steps []AStep) string {
 			break
 		}
 		t.step(s)
-		if s.Op != "abort" {
+		if s.Op != "abort" && !cfg.Sparse {
 			t.stateLog()
 		}
 	}
@@ -430,6 +434,9 @@ func replayAtt(b *ABeh, useVM bool) *AFail {
 				wantSteps = append(wantSteps, c)
 				wantSet = append(wantSet, true)
 				wantKind = append(wantKind, "result")
+			}
+			if b.Cfg.Sparse {
+				continue
 			}
 			want = append(want, strings.Join(c.St, "|"))
 			wantSteps = append(wantSteps, c)
